@@ -181,7 +181,7 @@ class Dataset(Scenario):
         import autoarray as aa
 
         rng = np.random.default_rng(11)
-        b = {"data": rng.random((11, 11)) + 1.0, "noise": rng.random((11, 11)) + 0.5, "psf": rng.random((3, 3)) + 0.1}
+        b = {"data": rng.standard_normal((11, 11)) * 2.0 + 0.5, "noise": rng.random((11, 11)) + 0.5, "psf": rng.random((3, 3)) + 0.1}
         mk = np.ones((11, 11), dtype=bool)
         mk[3:8, 3:8] = False
         mk[5, 5] = True
@@ -248,8 +248,23 @@ class InversionScn(Scenario):
         # single-object inversions take the in-place F += H fast path
         inv_1m = aa.Inversion(dataset=ds, linear_obj_list=[mapper], settings=aa.SettingsInversion(use_w_tilde=False, **skw))
         inv_1w = aa.Inversion(dataset=ds, linear_obj_list=[mapper], settings=aa.SettingsInversion(use_w_tilde=True, **skw))
+        # a Delaunay mapper with non-constant adapt data (its pixel signals are a query, too)
+        osr = aa.OverSamplerUniform(mask=ds.mask, sub_size=2)
+        pos = np.array(osr.over_sampled_grid) * np.array([1.0, 0.8])
+        lo, hi = pos.min(axis=0) - 0.4, pos.max(axis=0) + 0.4
+        b["verts"] = lo + rng.random((9, 2)) * (hi - lo)
+        b["adapt"] = rng.random(ds.mask.pixels_in_mask) + 0.2
+        self._snap(b)
+        dmesh = aa.Mesh2DDelaunay(values=b["verts"])
+        mg = aa.MapperGrids(mask=ds.mask, source_plane_data_grid=aa.Grid2DIrregular(pos), source_plane_mesh_grid=dmesh,
+                            image_plane_mesh_grid=None, adapt_data=aa.Array2D(values=b["adapt"], mask=ds.mask))
+        dmapper = aa.MapperDelaunay(mapper_grids=mg, over_sampler=osr, border_relocator=None, regularization=aa.reg.Constant(coefficient=1.0))
+        # fits of the same (signed) dataset
+        model = aa.Array2D(values=np.asarray(ds.data.array) * 0.5 + 0.25, mask=ds.mask)
+        fit1 = aa.m.MockFitImaging(dataset=ds, use_mask_in_fit=False, model_data=model)
+        fit2 = aa.m.MockFitImaging(dataset=ds, use_mask_in_fit=False, model_data=model * 0.0)
         return [("Imaging", ds), ("Mapper", mapper), ("Inversion", inv_m), ("Inversion", inv_w), ("MapperValued", mv),
-                ("Inversion", inv_1m), ("Inversion", inv_1w)], b
+                ("Inversion", inv_1m), ("Inversion", inv_1w), ("DMapper", dmapper), ("Fit", fit1), ("Fit", fit2)], b
 
     def table(self):
         import autoarray as aa
@@ -287,6 +302,15 @@ class InversionScn(Scenario):
                                        "max_pixels": lambda o: o.max_pixel_list_from(total_pixels=3, filter_neighbors=True)}, "ops": {}},
         }
         t["Mapper"]["reads"].pop("pixel_signals")
+        t["DMapper"] = {"cls": aa.MapperDelaunay,
+                        "reads": {"mapping_matrix": lambda o: o.mapping_matrix, "unique_weights": lambda o: o.unique_mappings.data_weights,
+                                  "unique_pix": lambda o: o.unique_mappings.data_to_pix_unique, "pix_sub_weights": lambda o: o.pix_sub_weights.weights,
+                                  "pix_sub_mappings": lambda o: o.pix_sub_weights.mappings, "pixel_signals": lambda o: o.pixel_signals_from(signal_scale=1.5),
+                                  "regularization_matrix": lambda o: o.regularization_matrix, "adapt_data": lambda o: np.asarray(o.adapt_data)}, "ops": {}}
+        fit_q = ["residual_map", "normalized_residual_map", "chi_squared_map", "signal_to_noise_map", "residual_flux_fraction_map", "chi_squared",
+                 "reduced_chi_squared", "noise_normalization", "log_likelihood", "figure_of_merit"]
+        t["Fit"] = {"cls": aa.m.MockFitImaging, "reads": dict({q: getter(q) for q in fit_q}, data=lambda o: o.data.array,
+                                                            dataset_data=lambda o: o.dataset.data.array), "ops": {}}
         for k, v in t.items():
             v["cached"] = _cached(v["cls"]) & set(v["reads"])
         return t
